@@ -253,6 +253,37 @@ pub fn sites(tier: Tier) -> Vec<Site> {
                 }
             }));
     }
+    // several counts at once: objects x points x triangles x checkpoints over a grid (every object carries the same
+    // numbers of points and triangles), so that a rule that couples two counts is met
+    {
+        let n = 7u64 * 41 * 41 * 3;
+        sites.push(Site::new("count-grid", n,
+            "SMX files with 0..=6 objects x 0..=40 points x 0..=40 triangles per object x {0, 1, 5} checkpoints: parsed, written back byte for byte",
+            move |i, acc| {
+                mark(6, i);
+                acc.eval();
+                let mut j = i as usize;
+                let c = [0usize, 1, 5][j % 3]; j /= 3;
+                let t = j % 41; j /= 41;
+                let p = j % 41; j /= 41;
+                let o = j;
+                let f = build_smx(o, p, t, c, 1, b"Westhill");
+                let replay = json!({"site": "count-grid", "index": i, "file": f.name});
+                match guard(|| parse_and_write(true, &f.bytes)) {
+                    Err(pn) => acc.violate(i, "C17|SMX|panic|valid-file".into(), format!("{}: {pn}", f.name), replay),
+                    Ok(Err(e)) => acc.violate(i, "C17|SMX|valid-file-rejected".into(), format!("{}: {e}", f.name), replay),
+                    Ok(Ok((_, written))) => {
+                        if written != f.bytes {
+                            let off = written.iter().zip(&f.bytes).position(|(a, b)| a != b).unwrap_or(written.len().min(f.bytes.len()));
+                            acc.violate(i, "C17|SMX|canonical-file-not-reproduced".into(), format!("{}: written bytes differ from the bytes read at offset {off} ({} vs {} bytes)", f.name, written.len(), f.bytes.len()), replay);
+                        } else {
+                            acc.class("grid-round-trips");
+                            acc.nontrivial();
+                        }
+                    },
+                }
+            }));
+    }
     // the same files through a reader that returns short counts (at most k bytes per read; the first 64
     // gaps cut individually): same structure, or the same refusal, as from a plain cursor
     {
@@ -647,7 +678,7 @@ pub fn run(tier: Tier, replay: Option<String>) -> i32 {
         Some(c @ (0 | 1)) => c,
         other => {
             // the sweep died: find the case(s) in flight and re-run each in its own process
-            let names = ["round-trip", "truncation", "substitution", "count-sweep", "short-reads", "stream-position"];
+            let names = ["round-trip", "truncation", "substitution", "count-sweep", "short-reads", "stream-position", "count-grid"];
             let raw = std::fs::read(&slots).unwrap_or_default();
             let mut pinned = 0;
             let mut tried = 0u64;
